@@ -44,6 +44,11 @@ def run_job(spec):
     try:
         ctx = get_ctx(tier, seed)
         mod = importlib.import_module("checks." + modname)
+        # every job starts from the working tree's own functions: a contract (functional summary) installed
+        # by the previous job of this worker must not leak into a job that does not ask for it
+        c03 = importlib.import_module("checks.c03")
+        c03.uninstall_range_summary(ctx.data)
+        c03.uninstall_weeks_summary(ctx.data)
         res = getattr(mod, fn)(ctx, **kwargs)
         if isinstance(res, list):
             out = res
